@@ -5,7 +5,7 @@ CONFIG = {
     'level_text': 'PARTIAL: the theorems are about the section machine of Model/Lin.v (every call = a sequence of atomic critical '
              'sections, any interleaving of sections, any number of threads and calls); the section machine has NO LOCKS: its sections are '
              'the sections of the filesystem lock m.mu, and which file mutex protects a section against which handle operation is not '
-             'modelled (one such window is open today: known finding OpenFile(O_APPEND|O_TRUNC) || Write through another handle); the Go '
+             'modelled beyond the shapes the translator recognises (Readdirnames, Rename, and OpenFile preparing its handle under one hold of the file mutex: switch lin_openfile_finish_one_hold, repaired finding OpenFile(O_APPEND|O_TRUNC) || Write through another handle); the Go '
              'scheduler, the Go memory model and preemption inside a critical section of a FILE mutex are outside the model, and the '
              'bounded quantifier of the property (2-4 goroutines x 1-4 ops) is covered by search (recorded histories checked against the '
              'extracted sequential model), not by proof',
@@ -37,7 +37,7 @@ CONFIG = {
     'assumptions': ['the Go scheduler and the Go memory model are outside the model: only interleavings that the stress runs happen to '
                     'produce, and lock-granular interleavings under the cooperative scheduler (exhaustive only under the preemption bound, for the fixed window programs), are examined',
                     'switches happen only in front of lock acquisitions and between calls: preemption INSIDE a critical section of a file mutex (between two plain memory accesses) is not examined (sound only where the lock discipline of C03 holds)',
-                    'the Coq section machine has no locks: C04_today_linearizable is about sections of m.mu and does not cover handle operations running inside them',
+                    'the Coq section machine has no locks: C04_today_linearizable is about sections of m.mu; handle operations running inside them are covered only where the translator reads the finer shape (Readdirnames, Rename, OpenFile: C04_today_linearizable_for_handles), elsewhere by search',
                     'stamps are taken outside the calls, so the recorded real-time order is a sub-order of the true one: a reported '
                     'violation is genuine, some violations may be missed',
                     'the FileInfo returned by Stat is a live view; each accessor call is treated as its own atomic read',
